@@ -1,5 +1,5 @@
 (* otto's own conversion code (value_number.go, evaluate.go) where it is more
-   than the ES5 clause: the int64 detour of toInt32/toUint32/toUint16,
+   than the ES5 clause: the math.Mod / int64 route of toInt32/toUint32/toUint16,
    parseNumber's dispatch onto Go's strconv grammars, string comparison on
    UTF-8 bytes. *)
 From Coq Require Import ZArith Bool List Lia.
@@ -9,23 +9,21 @@ Open Scope Z_scope.
 
 (* ---------- value_number.go toInt32 / toUint32 / toUint16 ---------- *)
 
-(* Go's int64(float64) on amd64 (CVTTSD2SQ): truncation when the result fits,
-   the "integer indefinite" value -2^63 otherwise (NaN, infinities, |x| >= 2^63) *)
-Definition go_int64 (d : Z) : Z :=
-  match trunc_int d with
-  | Some n => if (- 2 ^ 63 <=? n) && (n <? 2 ^ 63) then n else - 2 ^ 63
-  | None => - 2 ^ 63
-  end.
-
 Definition nan_inf_zero (d : Z) : bool :=
   match decode d with
   | DFin _ m _ => m =? 0
   | _ => true
   end.
 
-Definition m_to_int32 (d : Z) : Z := if nan_inf_zero d then 0 else wrap_s 32 (go_int64 d).
-Definition m_to_uint32 (d : Z) : Z := if nan_inf_zero d then 0 else wrap_u 32 (go_int64 d).
-Definition m_to_uint16 (d : Z) : Z := if nan_inf_zero d then 0 else wrap_u 16 (go_int64 d).
+(* int64(math.Mod(f, 4294967296)) for a finite non-zero f (since commit 02e659b).
+   math.Mod is the exact remainder with the sign of the dividend (IEEE fmod, Fp.fmod;
+   its agreement with Go is what the correspondence run checks), so |Mod| < 2^32, the
+   int64 conversion is in range and truncates:  trunc (f - q*2^32) = rem (trunc f) 2^32 *)
+Definition go_mod32_int64 (d : Z) : Z := Z.rem (pos_int d) (2 ^ 32).
+
+Definition m_to_int32 (d : Z) : Z := if nan_inf_zero d then 0 else wrap_s 32 (go_mod32_int64 d).
+Definition m_to_uint32 (d : Z) : Z := if nan_inf_zero d then 0 else wrap_u 32 (go_mod32_int64 d).
+Definition m_to_uint16 (d : Z) : Z := if nan_inf_zero d then 0 else wrap_u 16 (go_mod32_int64 d).
 
 (* toIntegerFloat: Inf kept, NaN -> 0, Floor / Ceil otherwise.
    (math.Ceil of -0.5 is -0 and math.Floor(0.5) is +0: same as 9.4's sign(x)*floor(abs x)) *)
